@@ -86,9 +86,20 @@ func unexportedNode(r interface{}, field string) *idr.Node {
 type c04XPath struct {
 	Path string
 	Pred string // "" or "[...]"
+	Wrap string // "": Path+Pred; "paren": (Path+Pred); "union": Path+Pred | /nosuch; "union2": /nosuch[zz] | Path+Pred
 }
 
-func (x c04XPath) String() string { return x.Path + x.Pred }
+func (x c04XPath) String() string {
+	switch x.Wrap {
+	case "paren":
+		return "(" + x.Path + x.Pred + ")"
+	case "union":
+		return x.Path + x.Pred + " | /nosuch"
+	case "union2":
+		return "/nosuch[zz] | " + x.Path + x.Pred
+	}
+	return x.Path + x.Pred
+}
 
 // c04Expected evaluates the property's definition on the fully loaded document.
 // the fully loaded document of the most recent (kind, doc) and its candidates per path: the xpaths of
@@ -346,17 +357,19 @@ func c04XPaths(kind string) []c04XPath {
 			// several predicates on the final step (all about the candidate itself)
 			"[@k='1'][b]", "[@k='1'][.='1']", "[not(@k)][b='2']", "[@k='1'][not(b)]", "[@k][@k='1'][count(*)=0]", "[b][@k='1']", "[b][b='2']", "[.='1'][not(@k)]",
 			// spelling variants of the same class: white space, nested brackets, double-quoted bracket literal
-			"[.='1'] ", "[ .='1' ]", "[b[.='2']]", `[b="2" or .="]"]`, "[b] [b='2']", "[self::b]", "[self::a][b]"}
+			"[.='1'] ", "[ .='1' ]", "[b[.='2']]", `[b="2" or .="]"]`, "[b] [b='2']", "[self::b]", "[self::a][b]",
+			// the predicate is not the textual tail of the expression: a step that stays on the candidate after it
+			"[b]/.", "[.='1']/self::node()", "[@k='1']/self::*"}
 	} else {
 		paths = []string{"/a", "/a/b", "/*/b", "//b", "/a//b", "/a/*", "//*", "/*", "/*/*"}
 		preds = []string{"", "[.='1']", "[b]", "[b='1']", "[not(b)]", "[count(*)=2]", "[count(*)=0]", "[.='']", "['x]'!='']", `[.!="'"]`, `[.='1' and .!="'"]`, "[a='true']", "[.//b='1']",
 			"[b][a]", "[b][b='1']", "[not(b)][.='1']", "[count(*)=2][a='true']",
-			"[.='1'] ", "[ .='1' ]", "[b[.='1']]", `[b="1" or .="]"]`, "[b] [b='1']"}
+			"[.='1'] ", "[ .='1' ]", "[b[.='1']]", `[b="1" or .="]"]`, "[b] [b='1']", "[b]/.", "[.='1']/self::node()"}
 	}
 	var out []c04XPath
 	for _, p := range paths {
 		for _, q := range preds {
-			out = append(out, c04XPath{p, q})
+			out = append(out, c04XPath{Path: p, Pred: q})
 		}
 	}
 	return out
@@ -372,6 +385,12 @@ func c04SplitXPaths(kind string) (base, ext []c04XPath) {
 	for i, x := range all {
 		if i%per < nb {
 			base = append(base, x)
+			// the same expression in parentheses and as a branch of a union
+			if i%per < 6 {
+				for _, w := range []string{"paren", "union", "union2"} {
+					ext = append(ext, c04XPath{Path: x.Path, Pred: x.Pred, Wrap: w})
+				}
+			}
 		} else {
 			ext = append(ext, x)
 		}
@@ -457,7 +476,7 @@ func init() {
 				var nsx []c04XPath
 				for _, pth := range []string{"/a/a", "/a/p:a", "/p:a/q:a", "//a", "//p:a", "//q:a", "/*/p:a", "/*/*", "//*", "/a/*", "/p:a/*"} {
 					for _, q := range []string{"", "[.='1']", "[@k='1']", "[not(@k)]", "[a]", "[p:a]", "[not(*)]"} {
-						nsx = append(nsx, c04XPath{pth, q})
+						nsx = append(nsx, c04XPath{Path: pth, Pred: q})
 					}
 				}
 				nmax := 3
